@@ -27,7 +27,7 @@ from props import extlib as X
 ID = "CONVFULL"
 COQ_PROPS = ["Props/C01full.v", "Props/C12full.v", "Props/C06conv.v"]
 COQ_EXTRA_TARGETS = ["Conv/FullCorr.vo"]
-THEOREMS = ["C01_voxel_lossless", "C01_full_projects", "C01_full_flip",
+THEOREMS = ["C01_voxel_lossless", "C01_full_projects", "C01_full_flip", "C01_normals_from_sources",
             "C12_full_dependency", "C12_full_history", "C12_full_fresh", "C12_full_resorted",
             "C06_conversion_canonical", "C06_conversion_const_readable", "C06_conversion_per_volume",
             "C06_conversion_den"]
